@@ -237,7 +237,7 @@ func (g *gen) protocols(n int, notes *[]string) []string {
 	base := g.rng.IntN(1 << 20)
 	for i := 0; i < n; i++ {
 		switch x := g.rng.IntN(100); {
-		case x < 3 && len(out) > 0:
+		case x < 3 && len(out) > 0 && n < 1000: // (no duplicates in cap-sized lists: identify cuts the LIST at its cap)
 			out = append(out, out[g.rng.IntN(len(out))]) // duplicate
 		case x < 4 && n < 100:
 			out = append(out, "")
